@@ -12,7 +12,7 @@ _LEDGER_RULE = (
     "with 9 funded key-holding accounts, 2 key-less recipients, 4 assets (native fee asset, IBC-prefixed fee asset, non-fee "
     "native asset, second IBC asset), 2 open IBC channels, in two variants (Aspen+Blackburn applied / legacy pre-Aspen). "
     "Per session: prologue creating 2 bridge accounts + escrow, then 16 (thorough 40) blocks of 1-7 ops; 12 (thorough 60) sessions. "
-    "Ops: real signed transactions of 1-5 actions over 16 action kinds (transfer, rollup data, bridge lock/unlock/transfer, init "
+    "Ops: real signed transactions of 1-5 actions over 18 action kinds (currency-pair and market changes, transfer, rollup data, bridge lock/unlock/transfer, init "
     "bridge, bridge sudo change, sudo / IBC sudo change, relayer add/remove, fee change, fee asset add/remove, validator update, "
     "ICS20 withdrawal plain and from a bridge), constructed against the current state or earlier (ctor … exec, so that mutable "
     "checks are re-run on a changed state), and ICS20 receive / timeout / acknowledgement packets. The generator reads the chain "
@@ -35,8 +35,8 @@ _TRUSTED = [
 
 _COMMON_ASSUMPTIONS = [
     "assets are identified by their trace-prefixed denomination (the harness uses no ibc/<hash> spellings in actions)",
-    "IbcRelay, RecoverIbcClient, CurrencyPairsChange and MarketsChange actions are not modelled (they move no funds; their "
-    "authority checks are the same pattern as SudoAddressChange)",
+    "IbcRelay and RecoverIbcClient actions are not modelled (they need light-client proofs); CurrencyPairsChange and MarketsChange "
+    "are modelled (pair ids / count / next id, market decimals)",
     "byzantine-validator evidence in BeginBlock is not generated",
 ]
 
